@@ -147,7 +147,7 @@ def knobs(rng, **over) -> dict:
 
 
 def result(world: World, violations: list[dict], faults: dict | None = None, probes: dict | None = None, nontrivial: bool = True, sample: dict | None = None) -> dict:
-    if world.ended == 'exit' and world.early_exit:
+    if world.ended == 'exit' and world.early_exit and not getattr(world, 'allow_early_exit', False):
         raise RuntimeError(f'reactor exited early (code {world.exit_code}) at t={world.loop.mono:.3f}: ' + '; '.join(l[3][:300] for l in world.logs[-3:]))
     if world.ended == 'crash':
         violations = list(violations) + [viol('reactor-crash', 'the reactor main coroutine raised: ' + (world.crash or '')[-1200:], where=(world.crash or '').strip().splitlines()[-1][:200] if world.crash else '')]
